@@ -17,6 +17,8 @@ T=[
 
  ("b10-window-lookups-untupled","C17","dfir_lang/src/graph/graph_algorithms.rs",[("            let (u_idx, u_len) = (self.sg_idx[u], self.sg_len[u]);\n            let (v_idx, v_len) = (self.sg_idx[v], self.sg_len[v]);","            let u_idx = self.sg_idx[u];\n            let u_len = self.sg_len[u];\n            let v_len = self.sg_len[v];\n            let v_idx = self.sg_idx[v];")]),
  ("b12-access-counter-named-steps","C41","hydro_lang/src/compile/ir/mod.rs",[("            let c = count.get() + 1;\n            count.set(c + 1);\n            c","            let group = count.get() + 1;\n            let after = group + 1;\n            count.set(after);\n            group")]),
+
+ ("b13-cursor-adjusted-outside-predicate","C15","hydro_deploy/hydro_deploy_integration/src/lib.rs",[("        if any_removed {\n            me.sources.retain(|source| {\n                if source.is_none() && current_index < original_cursor {\n                    me.poll_cursor -= 1;\n                }\n                current_index += 1;\n                source.is_some()\n            });\n        }","        if any_removed {\n            let removed_before = me.sources[..original_cursor].iter().filter(|s| s.is_none()).count();\n            current_index += removed_before;\n            me.sources.retain(Option::is_some);\n            me.poll_cursor -= removed_before;\n        }")]),
 ]
 for name,prop,f,edits in T:
     F=REPO+'/'+f; src=open(F).read(); s=src; ok=True
